@@ -25,6 +25,11 @@ CHECKS['C10'] = dict(
     note='Trusted: rustc MIR dump, vf.engine, std::time and crypto contract models (AEAD opens are havoc: plaintext header fields are arbitrary), z3. The salt cache is a set contract; concurrent presentation (try_lock) and LRU internals are outside.',
     technique='MIR symbolic execution to z3 (clock as a symbolic instant; acceptance implies specification)', design='DESIGN.md section 2, C10')
 
+CHECKS['C16'] = dict(
+    text='Configuration predicates decided over their whole (finite) domains on the real code: Mode::enable_tcp/udp/quic against the README table, CipherKind::is_aead_2022/support_eih/tag_size for all kinds, the key-size dispatch of the server startup and the client TCP/UDP transfer (first segment of the async bodies executed as MIR with a symbolic cipher: 128-bit ciphers select N=16, the others N=32, the unknown cipher instantiates nothing), key decoding (Ok implies exactly N decoded bytes, for every decoded length) and the key derivation chosen for legacy ciphers on UDP.',
+    note='Trusted: rustc MIR dump, vf.engine, Base64::decode contract, z3. serde name tables and socket binding are outside. Listed known finding: lenient key length (blocked by a repository test).',
+    technique='MIR symbolic execution to z3 (finite-domain tables and key-length logic)', design='DESIGN.md section 2, C16')
+
 NOT_APPLICABLE = {
  'C08': 'property is about long-lived async accept/select! loops under injected socket/TLS/DNS faults; no synchronous core that symbolic execution of MIR or Kani can reach (tokio runtime, epoll, FFI)',
  'C09': 'quantifies over thread interleavings of shared state; Kani has no thread model and Engine M is sequential',
